@@ -65,7 +65,9 @@ CONTAINERS = {
             dict(term='event_[?]', loops=('T', 'E', 'E'), rel=[], lits=['has(T0.event)']),
             dict(term="'1'", loops=('T',), rel=[], lits=['!has(T0.event)'])]),
         'CONF': dict(kind='or', scope=('T',), adds=[
-            dict(term=A('in_optimal_transition_set_', 'j<' + TP), loops=('T', 'T'), rel=['conflictBools(T0)[j<%s]' % TP], lits=[])]),
+            dict(term=A('in_optimal_transition_set_', 'j<' + TP), loops=('T', 'T'), rel=['conflictBools(T0)[j<%s]' % TP], lits=[]),
+            # the same set written as a loop over the transitions themselves, admitted while their number is smaller
+            dict(term=A('in_optimal_transition_set_', 'T1.postFixOrder'), loops=('T', 'T'), rel=['conflictBools(T0)[T1.postFixOrder]'], lits=['T1.postFixOrder<%s' % TP], alt_of=A('in_optimal_transition_set_', 'j<' + TP))]),
         'ALLT': dict(kind='or', scope=(), adds=[dict(term=A('in_optimal_transition_set_', TP), loops=('T',), rel=[], lits=[])]),
         'SPONT': dict(kind='or', scope=(), adds=[dict(term=A('in_optimal_transition_set_', TP), loops=('T',), rel=[], lits=['!has(T0.event)'])]),
     },
@@ -183,6 +185,7 @@ def run(rep, tier):
     rep.rule('R18.3', 'equation skeletons: the Boolean function of every assignment built with the VASSIGN/VOR/VAND/VNOT DSL equals the reference (next = ces or (active and not exit), exit = active and any-exiter, entry = ces and (exit or not active), ots = gate and cond and source-active and match and not conflict, cesu = targeters or child-up, ces = cesu or default); compared by truth table over the atoms')
     rep.rule('R18.4', 'container composition: kind (empty OR = 0, empty AND = 1), scope, added term, loop domains, relation filters and state-kind guards of every term container equal the reference table of the step algorithm; conflict suppression only references earlier post-fix indices')
     rep.rule('R18.5', 'state register and root: on the clock edge state_active_s <= state_next_s with the same index, reset clears every state, the root stays active until completed; every equation writer is called by writeMicroStepper')
+    rep.rule('R18.6', 'the relations the filters read are defined as the algorithm needs them: conflict relation with all terms, exit set over every kind of state that can be active (state, parallel, final), transition domain / LCCA quantifier shape (rules shared with C05)')
     rep.assume('equality of the whole per-document equation system with the step algorithm for all configurations is not decided (equivalence checking per document)')
     rep.assume('the condition solver, event controller and FIFO are not analysed')
     fb = facts.FactBase(TU)
@@ -297,7 +300,13 @@ def run(rep, tier):
             if sum(1 for c2 in x.containers.values() if c2['name'] == c['name'] and (c2['adds'] or c2['name'] in used_names)) > 1:
                 raise AnalysisBroken('%s: two live containers are called %s' % (w, c['name']))
             sig = sorted(canon_term(a['what']) for a in c['adds'])
-            cand = [role for role, r in ref.items() if sorted(a['term'] for a in r['adds']) == sig and role not in roles.values()]
+            def term_sets(r_):
+                plain = sorted(a['term'] for a in r_['adds'] if not a.get('alt_of'))
+                out_ = [plain]
+                for alt in [a for a in r_['adds'] if a.get('alt_of')]:
+                    out_.append(sorted([t for t in plain if t != alt['alt_of']] + [alt['term']]))
+                return out_
+            cand = [role for role, r in ref.items() if sig in term_sets(r) and role not in roles.values()]
             # disambiguate equal add sets (ALLT / SPONT) by the literal guards
             if len(cand) > 1:
                 mine = {eq.show_cond(l) for a in c['adds'] for l in literals(a['ctx'].guards)}
@@ -335,7 +344,7 @@ def run(rep, tier):
                 myrel = sorted(eq.show_cond(l) for l in lits if l[0] == 'rel' or (l[0] == 'not' and l[1][0] == 'rel'))
                 ok = myrel == sorted(ra['rel']) and domains(a['ctx'].loops) == ra['loops'] and set(ra['lits']) <= shown
                 why = 'term %s: loops %s (reference %s), relation filters %s (reference %s), required literals %s %s' % (
-                    t, domains(a['ctx'].loops), ra['loops'], myrel, sorted(ra['rel']), ra['lits'], 'present' if set(ra['lits']) <= shown else 'MISSING')
+                    t, domains(a['ctx'].loops), ra['loops'], myrel, sorted(ra['rel']), ra['lits'], 'present' if set(ra['lits']) <= shown else 'MISSING (guards found: %s)' % sorted(x for x in shown if not x.startswith('opaque'))[:6])
                 # state-kind guards, three-valued
                 for elem, kinds in ra.get('kinds', {}).items():
                     for k in kinds:
@@ -350,8 +359,11 @@ def run(rep, tier):
                             ok = False
                             why += '; applies to a %s %s although the algorithm has no such term there' % (k, elem)
                 rep.check(ok, 'R18.4', '%s|%s|%s' % (w, role, t), locstr(a['node']), why)
+            satisfied = set(seen) | {ra.get('alt_of') for ra in r['adds'] if ra['term'] in seen and ra.get('alt_of')}
             for ra in r['adds']:
-                if ra['term'] not in seen:
+                if ra.get('alt_of'):
+                    continue
+                if ra['term'] not in satisfied:
                     rep.fail('R18.4', '%s|%s|missing %s' % (w, role, ra['term']), site, 'container %s (%s) never receives the term %s of the step algorithm' % (c['name'], role, ra['term']))
         extra = [c['name'] for c in x.containers.values() if c['name'] not in roles and (c['adds'] or c['name'] in used_names)]
         if extra:
@@ -418,6 +430,12 @@ def run(rep, tier):
     for e in eqs_guard:
         g = [eq.show_cond(simp(l)) for l in literals(e['ctx'].guards)]
         rep.check(g == ['!root(S0)'], 'R18.5', 'every other state gets the next-state equation', locstr(e['node']), 'next-state equation written under %s' % g)
+    # ---- R18.6 the tables the equations are filtered with (shared with C05)
+    from . import C05, _domain
+    fbt = facts.FactBase(C05.TUS)
+    C05.check_conflict_terms(rep, 'R18.6', fbt)
+    C05.check_exit_set_vocabulary(rep, 'R18.6', fbt)
+    _domain.check(rep, 'R18.6', fbt, [fbt.fn('uscxml::getTransitionDomain'), fbt.fn('uscxml::findLCCA')], 'Predicates')
     ms = fb.fn(CLS + '::writeMicroStepper')
     called = {n.get('callee', {}).get('q', '').split('::')[-1] for n in ms.walk() if n['k'] == 'CXXMemberCallExpr'}
     for w in WRITERS:
